@@ -239,6 +239,14 @@ class Engine:
         cc = getattr(self, "cur_con", None)
         if cc is not None and getattr(cc, "inst_rounds", None):
             m.setdefault("rounds", cc.inst_rounds)
+        if z3.is_false(goal):
+            # a structurally false goal (unexpected raise, failed ghost-trace check): provable only by showing the path
+            # infeasible, which the quantified form does at once or not at all - no long model search
+            m["false_goal"] = True
+            m.setdefault("z3_t", 20)
+            m.setdefault("cvc5_t", 20)
+            m.setdefault("q_slow", 30)
+            m["rounds"] = min(m.get("rounds", 2), 2)
         vc = VC(name, hyps, list(self.st.schemas) + self.reg.global_schemas(self), goal, extra_terms, m)
         vc._keep = hyps  # keep z3 refs alive
         self.vcs.append(vc)
@@ -473,6 +481,8 @@ class Engine:
                 return self.truth(self.heap()[v.rid])
             return z3.BoolVal(True)
         if isinstance(v, TupV):
+            return z3.BoolVal(len(v.items) > 0)
+        if type(v).__name__ == "ListV":
             return z3.BoolVal(len(v.items) > 0)
         raise Unsupported("truthiness of %r" % (v,))
 
